@@ -12,13 +12,26 @@ use crate::rng::{Rng, fnv};
 use crate::scratch::Scratch;
 use crate::tree::{self, Clock, GenParams, GenState, Kind, Node, Snapshot};
 
+/// Ids without a passwd / group entry. Owners are recorded by name, so such an id is recorded
+/// as "no name": two different unnamed ids are the same owner as far as diff can know.
+const UNNAMED_UID: u32 = 54_321;
+const UNNAMED_GID: u32 = 54_322;
+
+fn owner_key(n: &Node) -> (Option<u32>, Option<u32>) {
+    let (u, g) = tree::named_ids();
+    (
+        if u.contains(&n.uid) || n.uid != UNNAMED_UID { Some(n.uid) } else { None },
+        if g.contains(&n.gid) || n.gid != UNNAMED_GID { Some(n.gid) } else { None },
+    )
+}
+
 fn classify(a: Option<&Node>, b: Option<&Node>) -> char {
     match (a, b) {
         (None, Some(_)) => '+',
         (Some(_), None) => '-',
         (Some(a), Some(b)) => {
             let changed = a.kind != b.kind
-                || (a.uid, a.gid) != (b.uid, b.gid)
+                || owner_key(a) != owner_key(b)
                 || (a.kind != Kind::Symlink && a.mode != b.mode)
                 || (a.kind == Kind::File && (a.content.len() != b.content.len() || (a.mtime_s, a.mtime_ns) != (b.mtime_s, b.mtime_ns)))
                 || (a.kind == Kind::Symlink && a.target != b.target);
@@ -47,6 +60,25 @@ fn one_case(run: &Run, case: u64) {
     p.hostile_mtimes = case % 3 == 0;
     let mut st = GenState { mode_cursor: rng.below(4096) as u32 };
     let mut spec = tree::gen_tree(&mut rng, &p, &mut st);
+    // owners of which only the user or only the group has a name (root only)
+    let unnamed_ok = tree::is_root() && !tree::named_ids().0.contains(&UNNAMED_UID) && !tree::named_ids().1.contains(&UNNAMED_GID);
+    if unnamed_ok && rng.chance(1, 3) {
+        let keys: Vec<String> = spec.keys().filter(|k| k.as_str() != "/").cloned().collect();
+        for _ in 0..2 {
+            if let Some(k) = keys.get(rng.below(keys.len().max(1) as u64) as usize) {
+                let n = spec.get_mut(k).unwrap();
+                match rng.below(3) {
+                    0 => n.uid = UNNAMED_UID,
+                    1 => n.gid = UNNAMED_GID,
+                    _ => {
+                        n.uid = UNNAMED_UID;
+                        n.gid = UNNAMED_GID;
+                    }
+                }
+                run.count("entries_with_an_unnamed_user_or_group", 1);
+            }
+        }
+    }
     let sc = Scratch::new("c18");
     let src = sc.join("src");
     tree::sync_to_disk(None, &spec, &src).expect("materialise");
@@ -132,7 +164,10 @@ fn one_case(run: &Run, case: u64) {
             let k = rng.pick(&keys).clone();
             let (u, g) = tree::named_ids();
             let n = spec.get_mut(&k).unwrap();
-            let (nu, ng) = (*rng.pick(u), *rng.pick(g));
+            let (mut nu, mut ng) = (*rng.pick(u), *rng.pick(g));
+            if unnamed_ok && rng.chance(1, 3) {
+                if rng.chance(1, 2) { nu = UNNAMED_UID } else { ng = UNNAMED_GID }
+            }
             if (nu, ng) != (n.uid, n.gid) {
                 n.uid = nu;
                 n.gid = ng;
@@ -273,7 +308,7 @@ pub fn run(tier: Tier, replay: Option<Value>) -> i32 {
         run.par_cases(tier.pick(2500, 250000), super::threads(), |c| one_case(&run, c));
     }
     run.finish(
-        "generated trees S0 backed up with default options; diff(version, S0) must be empty (and all-unchanged with include_unchanged); then 1-6 mutations (content with new mtime or size, mtime only, chmod, chown as root, file<->dir swaps, add/remove/rename of files, dirs and symlinks, retargeted links) give S1 and diff(version, S1) must equal, in apath order and with the right sigil, the classification computed from the two lstat snapshots (added / deleted / changed iff kind, owner, mode, file size or mtime, or link target differ); the next backup's change callback, restricted to files, must name the same added, changed and deleted sets. Also one version of 10 040 files with one entry per hunk, diffed against its own tree and after changes on both sides of the index-subdirectory boundary. Non-trivial = >= 2 real differences; distinct by the difference list.",
+        "generated trees S0 backed up with default options; diff(version, S0) must be empty (and all-unchanged with include_unchanged); then 1-6 mutations (content with new mtime or size, mtime only, chmod, chown as root, file<->dir swaps, add/remove/rename of files, dirs and symlinks, retargeted links) give S1 and diff(version, S1) must equal, in apath order and with the right sigil, the classification computed from the two lstat snapshots (added / deleted / changed iff kind, owner, mode, file size or mtime, or link target differ; owners compare by name, an id without a name being 'no name': trees and chown mutations include owners of which only the user or only the group has a name); the next backup's change callback, restricted to files, must name the same added, changed and deleted sets. Also one version of 10 040 files with one entry per hunk, diffed against its own tree and after changes on both sides of the index-subdirectory boundary. Non-trivial = >= 2 real differences; distinct by the difference list.",
         &["directory and symlink mtimes are not significant (as in the statement)"],
         None,
         &[("diffs_compared", 100), ("real_changes_added", 10), ("real_changes_deleted", 10), ("real_changes_changed", 10), ("callback_sets_compared", 50), ("diffs_of_versions_with_more_than_10000_hunks", 2)],
